@@ -3,7 +3,7 @@
 Require Import KV.Sparql.Base KV.Sparql.Syntax KV.Sparql.MuProofs KV.Sparql.JoinProofs KV.Sparql.Algebra KV.Sparql.Engine
         KV.Sparql.Lowering KV.Sparql.PlanEquiv KV.Sparql.Sem KV.Sparql.Bridge KV.Sparql.Classes KV.Sparql.ScanProofs
         KV.Sparql.BgpProofs KV.Sparql.HashProofs KV.Sparql.SemProofs KV.Sparql.ExecLemmas KV.Sparql.BridgeProofs
-        KV.Sparql.IdemProofs KV.Sparql.GroupProofs KV.Sparql.EngineProofs KV.Sparql.PlanProofs.
+        KV.Sparql.IdemProofs KV.Sparql.Typing KV.Sparql.TypingProofs KV.Sparql.GroupProofs KV.Sparql.EngineProofs KV.Sparql.PlanProofs.
 Require Import Permutation.
 
 (* the part of the fragment decided on the query alone *)
@@ -42,6 +42,20 @@ Proof.
   eapply perm_trans.
   - apply implements_sem; eauto; [apply ev_named_nodup; exact OK | apply dataset_ok_sets; exact OK].
   - apply lowering_is_algebra; auto.
+Qed.
+
+(* the same with syntactic hypotheses only: noerr (outside C01-not-of-error / C01-bind-arg-unbound, BIND targets fresh) and
+   typed (ordering comparisons see integers only, decided on the query and the dataset view) replace `agree` *)
+Lemma pattern_correct_syntactic : forall ds q p, dataset_ok ds ->
+  let vw := mk_view ds (q_from q) (q_from_named q) in
+  let ev := mk_eview ds (q_from q) (q_from_named q) in
+  let w := sel_where (q_sel q) in
+  proved_fragment q = true -> noerr w = true -> typed vw w = true ->
+  implementsb (lower_query (q_sel q)) p = true ->
+  exec ds ev None p [[]] ≡ₚ eval vw None w.
+Proof.
+  intros ds q p OK vw ev w PF NE TY IMP. apply pattern_correct; auto.
+  apply agree_of_noerr_typed; auto. unfold proved_fragment in PF. apply andb_true_iff in PF. tauto.
 Qed.
 
 Lemma not_perm_witness {A} : forall (l l' : list A) r, In r l -> ~ In r l' -> ~ Permutation l l'.
@@ -107,6 +121,29 @@ Lemma example_ok :
   wimpl wq_ok = true /\ List.length (wspec wds1 wq_ok) = 3%nat.
 Proof. vm_compute. repeat split; reflexivity. Qed.
 
+(* non-vacuity of the two extensions: a nested group consisting of a single BIND of constants, and a SELECT star sub-select *)
+Definition wq_ok2 := mkq (PGroup [PBgp [(TV 0%N, TC (E "p1"), TV 1%N)];
+                                  PGroup [PBind [BC "k"; BC "x"] 5%N];
+                                  PSub (Sel true None (PGroup [PBgp [(TV 0%N, TC (E "p3"), TV 2%N)]; PFilter (ECmp OLt 2%N (TC "7"))]) [] [(2%N, false)] None)]).
+Lemma example_ok2 :
+  proved_fragment wq_ok2 = true /\ noerr (sel_where (q_sel wq_ok2)) = true /\ typed (mk_view wds1 [] []) (sel_where (q_sel wq_ok2)) = true /\
+  wimpl wq_ok2 = true /\ wspec wds1 wq_ok2 = [[(0%N, E "s1"); (1%N, E "s2"); (2%N, "5"%string); (5%N, "kx"%string)]].
+Proof. vm_compute. repeat split; reflexivity. Qed.
+
+(* the pieces behind them, as statements about the algebra *)
+Lemma eval_scope : forall vw p active m x t, In m (eval vw active p) -> lookup m x = Some t -> In x (sposs p).
+Proof. intros vw p active m x t Hm L. exact (eval_poss vw p active m Hm x t L). Qed.
+
+Lemma const_bind_group : forall vw active args v G, barg_vars args = [] -> all_wf G -> (forall b, In b G -> lookup b v = None) ->
+  join G (eval vw active (PGroup [PBind args v])) = map (bind_row args v) G.
+Proof. intros vw active args v G Hc WG HG. change (eval vw active (PGroup [PBind args v])) with [extend args v []]. apply join_const_bind; auto. Qed.
+
+Lemma select_star_id : forall vw active w m, In m (eval vw active w) -> restrict (star_cols w []) m = m.
+Proof.
+  intros vw active w m Hm. apply restrict_id; [eapply all_wf_in; [apply eval_wf | exact Hm]|].
+  intros x t L. apply sposs_star_cols. right. eapply eval_poss; eauto.
+Qed.
+
 (* regression for the repaired C01-group-by-without-aggregate: three solutions in two groups; finalize_select now returns
    the algebra's two rows (before bc03712 - eaggregate false - it returned three) *)
 Definition wsel_gb : sel := Sel false (Some [PVar 0%N]) (PGroup [PBgp [(TV 0%N, TC (E "p3"), TV 1%N)]]) [0%N] [] None.
@@ -116,3 +153,8 @@ Lemma group_by_regression :
   List.length (finalize_select wsel_gb wrows_gb) = 2%nat /\
   List.length (eaggregate false (Some [PVar 0%N]) [0%N] wrows_gb) = 3%nat.
 Proof. vm_compute. repeat split; reflexivity. Qed.
+
+(* regression for the repaired C01-empty-sum-negative-zero: a SUM over no values is "0" in the model as in the algebra
+   (before 15674d8 the engine printed "-0", a different term) *)
+Lemma empty_sum_regression : forall x, eagg_value ASum x [] = Some "0" /\ agg_value ASum x [] = Some "0" /\ "-0" <> "0".
+Proof. intro x. repeat split. discriminate. Qed.
